@@ -366,5 +366,11 @@ theorem life_cycles_refine_or_stuck (cfg : Cfg) (ops : List RefineMulti.AOp) (w 
       RefineMulti.MRel (RefineMulti.arun cfg w pre) ms1 ∧ ¬ RefineMulti.AOk ms1 op) :=
   RefineMulti.life_cycles_refine_or_stuck cfg ops w ms h
 
+/-- the specification has no slack: away from the capacity boundary (and the `shrink_*` requests, which a storage may
+always decline) every operation has exactly one abstract outcome - what `Vec` does -/
+theorem abstract_vector_is_deterministic_with_room (s s1 s2 : Refine.Spec) (op : Refine.VOp) (hr : op.Roomy s)
+    (h1 : Refine.Spec.Step s op s1) (h2 : Refine.Spec.Step s op s2) : s1 = s2 :=
+  Refine.Spec.Step.deterministic s s1 s2 op hr h1 h2
+
 end C01
 end AnyVec
